@@ -83,6 +83,31 @@ func TestSelfIewalkHandAnalysed(t *testing.T) {
 			t.Fatalf("prefix of %d octets accepted", i)
 		}
 	}
+	// later-release IEs appended by the AMF model: the hand-written reader finds the original IEs unchanged and n more
+	if p0, err := iewalk.ParsePDU(good); err != nil {
+		t.Fatal(err)
+	} else {
+		for n := 1; n <= 3; n++ {
+			ext, err := refamf.WithLaterIEs(good, n, n)
+			if err != nil {
+				t.Fatal(err)
+			}
+			p1, err := iewalk.ParsePDU(ext)
+			if err != nil || len(p1.IEs) != len(p0.IEs)+n {
+				t.Fatalf("message with %d later-release IEs: %v (%d IEs, originally %d)", n, err, len(p1.IEs), len(p0.IEs))
+			}
+			for i := range p0.IEs {
+				if p0.IEs[i].ID != p1.IEs[i].ID || !bytes.Equal(p0.IEs[i].Value, p1.IEs[i].Value) {
+					t.Fatalf("IE %d changed by the extension", i)
+				}
+			}
+			for _, ie := range p1.IEs[len(p0.IEs):] {
+				if ie.ID < 300 || ie.Criticality != 1 {
+					t.Fatalf("later-release IE id %d criticality %d", ie.ID, ie.Criticality)
+				}
+			}
+		}
+	}
 	for _, fam := range []string{"choice3", "length", "stale-prefix", "oversize2048", "otherproc", "failure-truncated"} {
 		if _, err := iewalk.ParsePDU(garble(refamf.Fault{Garbage: fam, PrefixLen: 3}, good, good)); err == nil {
 			t.Fatalf("garbage family %s accepted", fam)
